@@ -87,6 +87,8 @@ type Case struct {
 
 	// a serialised form handed to a decoder
 	Bytes HB `json:"bytes,omitempty"`
+	// reader-behaviour menu for the io.Reader decoders (reader.go): "" = full, "core" = the four k-less behaviours
+	Menu string `json:"reader_menu,omitempty"`
 
 	// log entry (leaf) the SCT is verified against
 	LeafVer   uint8  `json:"leaf_ver"`
